@@ -10,11 +10,16 @@
      the session limit (T from -8 .. ~4 NLRI), announced for 1..8 prefixes, mixed with small
      routes on the same and other prefixes: messages land within +-2 NLRI of 4096 / 65535, a
      single route fits exactly, by a few octets, or not at all.
+   Scenario "noroom": the slice of "bound" where known finding KF-C11-v4-noroom lives.
+   Scenario "fill": 30..60 same-length prefixes whose NLRI fill the room under the limit exactly
+     / up to one octet short of one more NLRI; three more prefixes force the split.
+   Scenario "as2fill": "fill" towards a peer without the 4-octet AS capability (send() rewrites
+     AS_PATH and adds AS4_PATH after packing); "small" draws that capability at random.
    Scenario "large": Big prefixes announced (7 attribute sets, two families), then Big/10
      re-announcements / withdrawals of pseudo-randomly chosen earlier prefixes, End-of-RIB. *)
 EXTENDS Integers, Sequences, TLC, Json, PackingDom
 
-CONSTANTS Scenario,     \* "small" | "bound" | "noroom" | "large"
+CONSTANTS Scenario,     \* "small" | "bound" | "noroom" | "fill" | "as2fill" | "large"
           MaxSteps,     \* number of changes (small / bound)
           Big           \* number of prefixes (large)
 
@@ -25,8 +30,8 @@ Pick(q) == q[RandomElement(1..Len(q))]
 
 Aps == <<ApNone, ApNone, ApAll, ApV4, ApMp>>
 
-NoSc == [ap |-> ApNone, ext |-> FALSE, collide |-> FALSE, np |-> 0, nl |-> 0, fam |-> "v4", nh |-> "n4a",
-         room |-> 0, room4 |-> 0, nbig |-> 0, salt |-> 0]
+NoSc == [ap |-> ApNone, ext |-> FALSE, collide |-> FALSE, as2 |-> FALSE, np |-> 0, nl |-> 0, fam |-> "v4", nh |-> "n4a",
+         room |-> 0, room4 |-> 0, nbig |-> 0, cnt |-> 0, rem |-> 0, salt |-> 0]
 
 GenInit == stage = 0 /\ sc = NoSc /\ hist = <<>>
 
@@ -39,6 +44,7 @@ Draw ==
            IN [ap      |-> Pick(Aps),
                ext     |-> Pick(<<FALSE, FALSE, TRUE>>),
                collide |-> Pick(<<FALSE, FALSE, FALSE, TRUE>>),
+               as2     |-> Pick(<<FALSE, FALSE, FALSE, TRUE>>),  \* peer without 4-octet AS capability
                np      |-> RandomElement(1..3),           \* prefixes per family (small)
                nl      |-> RandomElement(1..3),           \* local ids
                fam     |-> fam,                           \* family of the big group (bound)
@@ -46,6 +52,8 @@ Draw ==
                room    |-> RandomElement(-8..40),         \* octets left for NLRI (bound)
                room4   |-> RandomElement(-8..8),          \* the same for scenario "noroom"
                nbig    |-> RandomElement(1..8),           \* prefixes announced with the big set
+               cnt     |-> RandomElement(30..60),         \* NLRI that exactly fit (fill)
+               rem     |-> Pick(<<0, 0, -1, -1, 1, 3>>),  \* octets left after them (-1: one NLRI minus 1)
                salt    |-> RandomElement(1..9973)]
 
 (* ---- small changes ---- *)
@@ -86,6 +94,24 @@ StepBound ==
        ELSE SmallChange(<<BFam, BFam, "v4", "v6">>, 4, sc.nl, <<1, 2>>))
   /\ UNCHANGED <<stage, sc>>
 
+(* ---- fill: cnt same-length prefixes of one family whose NLRI fill the room under the limit
+   exactly (rem = 0), leave one NLRI minus one octet (rem = -1), or a few octets; cnt+3 are
+   announced, so the first message must hold exactly cnt NLRI and MP_REACH_NLRI needs the
+   extended-length header ---- *)
+FillP(i)  == IF sc.fam = "v6" THEN 3 * i ELSE 4 * i + 1            \* /64, resp. /32
+FillPlen  == IF sc.fam = "v6" THEN 64 ELSE 32
+FillNl    == NlriLen(sc.fam, FillPlen, sc.ap[sc.fam])
+FillAb    == LimitOf(sc.ext) - 23 - MpOverhead(sc.fam, sc.nh)
+               - (sc.cnt * FillNl + (IF sc.rem = -1 THEN FillNl - 1 ELSE sc.rem))
+StepFill ==
+  /\ Scenario \in {"fill", "as2fill"} /\ stage = 1
+  /\ hist' = [i \in 1..(sc.cnt + 4) |->
+                IF i <= sc.cnt + 3
+                THEN GChg(sc.fam, FillP(i - 1), FillPlen, 1, "ann", 9, FillAb, sc.nh)
+                ELSE EorChg(sc.fam)]
+  /\ stage' = 2
+  /\ UNCHANGED sc
+
 (* ---- large instance, built in one step from the salt drawn at stage 0 ---- *)
 LFam(p)  == IF (p + sc.salt) % 4 = 0 THEN "v6" ELSE "v4"
 LNh(p)   == IF LFam(p) = "v6" THEN (IF p % 5 = 0 THEN "n6b" ELSE "n6a")
@@ -112,14 +138,18 @@ StepLarge ==
   /\ stage' = 2
   /\ UNCHANGED sc
 
-GenNext == Draw \/ StepSmall \/ StepBound \/ StepLarge
+GenNext == Draw \/ StepSmall \/ StepBound \/ StepFill \/ StepLarge
 GenSpec == GenInit /\ [][GenNext]_gvars
 
-Complete == IF Scenario = "large" THEN stage = 2 ELSE (stage = 1 /\ Len(hist) = MaxSteps)
+Complete == IF Scenario \in {"large", "fill", "as2fill"} THEN stage = 2 ELSE (stage = 1 /\ Len(hist) = MaxSteps)
 
 Emit == Complete =>
           PrintT("VPOUT " \o ToJson([sc |-> Scenario,
                                      cfg |-> [ap |-> sc.ap, ext |-> sc.ext,
-                                              collide |-> (sc.collide /\ Scenario # "large")],
+                                              collide |-> (sc.collide /\ Scenario # "large"),
+                                              \* near-limit messages towards a 2-octet-AS peer only
+                                              \* in their own scenario (known finding as2-growth)
+                                              as2 |-> IF Scenario = "as2fill" THEN TRUE
+                                                      ELSE (sc.as2 /\ Scenario = "small")],
                                      changes |-> hist]))
 =============================================================================
